@@ -420,6 +420,69 @@ Definition signing_path (rden cden tnum tden total factor : N) (scale : option N
     end.
 
 (* ------------------------------------------------------------------ *)
+(* (e) governance deposits -- submitProposal (apps/governance/transactions.go:166-205) takes
+   params.MinProposalDeposit of THAT moment into the deposits pool and records it in
+   proposal.Deposit; EndBlock (governance.go:617-652) returns proposal.Deposit to the
+   submitter (passed / failed) or moves it to the common pool (rejected).  Parameter
+   changes may alter MinProposalDeposit at any time in between. *)
+Record gst := mkG { g_pool : N; g_min : N; g_next : N; g_open : list (N * N) }. (* open: id -> recorded deposit *)
+
+Inductive gop :=
+| GSubmit                 (* a submitProposal that got as far as the deposit *)
+| GSetMin (x : N)         (* a parameter change *)
+| GClose (id : N).        (* EndBlock closes proposal [id] (any outcome: the pool loses the deposit) *)
+
+Definition gstep (st : gst) (o : gop) : res gst :=
+  match o with
+  | GSubmit =>
+      Ok (mkG (g_pool st + g_min st) (g_min st) (g_next st + 1) ((g_next st, g_min st) :: g_open st))
+  | GSetMin x => Ok (mkG (g_pool st) x (g_next st) (g_open st))
+  | GClose id =>
+      match aget id (g_open st) with
+      | None => Ok st                                       (* not an open proposal: nothing closes *)
+      | Some dep =>
+          do p <- qsub (g_pool st) dep ;                    (* TransferFromGovernanceDeposits / DiscardGovernanceDeposit *)
+          Ok (mkG p (g_min st) (g_next st) (adel id (g_open st)))
+      end
+  end.
+
+Fixpoint grun (ops : list gop) (st : gst) : res gst :=
+  match ops with
+  | [] => Ok st
+  | o :: r => do st1 <- gstep st o ; grun r st1
+  end.
+
+(* the seeded variant: the refund takes the CURRENT minimum deposit instead of the recorded one *)
+Definition gstep_current_min (st : gst) (o : gop) : res gst :=
+  match o with
+  | GClose id =>
+      match aget id (g_open st) with
+      | None => Ok st
+      | Some _ =>
+          do p <- qsub (g_pool st) (g_min st) ;
+          Ok (mkG p (g_min st) (g_next st) (adel id (g_open st)))
+      end
+  | _ => gstep st o
+  end.
+
+Fixpoint grun_current_min (ops : list gop) (st : gst) : res gst :=
+  match ops with
+  | [] => Ok st
+  | o :: r => do st1 <- gstep_current_min st o ; grun_current_min r st1
+  end.
+
+(* one EndBlock: the closing proposals' recorded deposits leave the pool one after the other.
+   Output: the amounts paid out and the pool afterwards. *)
+Fixpoint gov_close (pool : N) (deps : list N) : res (list (N * N * N) * N) :=
+  match deps with
+  | [] => Ok ([], pool)
+  | d :: r =>
+      do p <- qsub pool d ;
+      do x <- gov_close p r ;
+      let '(l, q) := x in Ok ((d, 0, 0) :: l, q)
+  end.
+
+(* ------------------------------------------------------------------ *)
 (* correspondence: one sum type of calls and outputs *)
 Inductive call :=
 | CFeeP (total wP wV wQ : N) (known : bool)
@@ -427,6 +490,7 @@ Inductive call :=
 | CReward (rden cden bal ts factor scale num den pool rate : N)
 | CRewardSeq (rden cden factor : N) (scale : option N) (accts : list (N * N * N)) (pool : N)
 | CSigning (rden cden tnum tden total factor : N) (scale : option N) (ents : list (N * N * N * N)) (pool : N)
+| CGovClose (pool : N) (deps : list N)
 | CSlash (active deb amount : N)
 | CDebond (bal ts shares : N)
 | CTally (validators delegs : list (N * N * N)) (votes : list (N * vote)) (threshold : N).
@@ -461,6 +525,8 @@ Definition run_call (c : call) : outv :=
       match rewards_seq rd cd f sc ac p with Ok (l, q) => OSeq l q | Fatal => OFatal end
   | CSigning rd cd tn td tot f sc en p =>
       match signing_path rd cd tn td tot f sc en p with Ok (l, q) => OSeq l q | Fatal => OFatal end
+  | CGovClose p ds =>
+      match gov_close p ds with Ok (l, q) => OSeq l q | Fatal => OFatal end
   | CSlash a d m =>
       match slash_escrow a d m with Ok (x, y) => OPair x y | Fatal => OFatal end
   | CDebond b t s =>
